@@ -1177,10 +1177,10 @@ def r7_number_frame(ctx, rule="C16.R7"):
         if f.crate != "rusty_basic" or "interpreter::print" not in f.path or f.kind == "const" or common.is_derived(f):
             continue
         for sw in mir.enum_switches(prog, f.body):
-            if sw.adt.endswith("::Variant") and any(_is_printer_call(t, "print") for _b, t in f.body.calls()):
+            if sw.adt.endswith("::Variant") and {"VSingle", "VDouble", "VString", "VInteger", "VLong"} <= set(sw.arms):
                 cands.append((f, sw))
     if len(cands) != 1:
-        raise CheckError("%s: %d functions of the print module match on Variant and print" % (rule, len(cands)))
+        raise CheckError("%s: %d functions of the print module have an arm for each printable type of Variant" % (rule, len(cands)))
     f, sw = cands[0]
     body = f.body
     pv = mir.Prov(body)
@@ -1232,8 +1232,12 @@ def r7_number_frame(ctx, rule="C16.R7"):
         region = mir.arm_region(body, sw.bb, sw.arms["VString"])
         names = [mir.callee_path(t) for _b, t in mir.region_calls(body, region)]
         prints = [t for _b, t in mir.region_calls(body, region) if _is_printer_call(t, "print")]
-        okv = len(prints) == 1 and "as VString" in mir.show_origin(pv.of_operand(prints[0]["args"][1])) and \
-            all(n.endswith("::deref") or "Printer" in n or n.endswith("as_str") or n.endswith("AsRef::as_ref") for n in names)
+        plain = all(n.endswith("::deref") or "Printer" in n or n.endswith(("as_str", "AsRef::as_ref", "Clone>::clone", "::clone", "to_owned", "to_string",
+                                                                                "String::from", "From<&str>>::from", "ToOwned>::to_owned"))
+                    for n in names)
+        okv = plain and ((len(prints) == 1 and "as VString" in mir.show_origin(pv.of_operand(prints[0]["args"][1]))) or
+                         (not prints and any("as VString" in mir.show_origin(pv.of_operand(a_)) for _b, t_ in mir.region_calls(body, region)
+                                             for a_ in t_["args"])))
         ctx.decide(okv, rule, key, f.loc, "print(payload)",
                    "the VString arm does not hand the string itself to print (calls: %s)" % [n.split("::")[-1] for n in names])
     else:
@@ -1482,6 +1486,65 @@ def r11_a_statement_starts_clean(ctx, rule="C16.R11"):
                    "PrintState.%s is modified by %s but not written when a PRINT statement starts (%s): what a statement that "
                    "an error ended early left there reaches the next PRINT (`PRINT \"a\"; 1 / Z` under RESUME NEXT, then a bare "
                    "PRINT: no line end)" % (fld, sorted(per_item[fld]), sorted(start_names)))
+    # the same for what the VM itself keeps between the instructions of a PRINT (a text buffer, a cursor ...): every
+    # field of the interpreter that the per-item arms write - the devices and the print state apart - is written when a
+    # statement starts
+    def arm_fields(arm):
+        out = set()
+        seen_ = set()
+        todo = []
+        for _b, t in mir.region_calls(one.body, regions.get(arm, set())):
+            h = _resolve(prog, t)
+            if h is not None and h.crate == "rusty_basic" and h.impl is not None and one.impl is not None \
+                    and h.impl.get("self_adt") == one.impl.get("self_adt"):
+                todo.append(h)
+        for b in regions.get(arm, set()):
+            for st in one.body.blocks[b]["s"]:
+                if st["k"] == "assign":
+                    n_ = _self_field(st["p"])
+                    if n_:
+                        out.add(n_)
+                    if st["r"]["k"] == "ref" and st["r"].get("mut"):
+                        n2 = _self_field(st["r"]["p"])
+                        if n2:
+                            out.add(n2)
+        while todo:
+            h = todo.pop()
+            if h.id in seen_:
+                continue
+            seen_.add(h.id)
+            for blk in h.body.blocks:
+                if blk.get("c"):
+                    continue
+                for st in blk["s"]:
+                    if st["k"] == "assign":
+                        n_ = _self_field(st["p"])
+                        if n_:
+                            out.add(n_)
+                        if st["r"]["k"] == "ref" and st["r"].get("mut"):
+                            n2 = _self_field(st["r"]["p"])
+                            if n2:
+                                out.add(n2)
+            for _b, t in h.body.calls():
+                g2 = _resolve(prog, t)
+                if g2 is not None and g2.crate == "rusty_basic" and g2.impl is not None and g2.impl.get("self_adt") == h.impl.get("self_adt"):
+                    todo.append(g2)
+        return out
+    devices_ = {"stdout", "lpt1", "file_manager"}
+    interp = prog.adt("rusty_basic::interpreter::main::Interpreter")
+    state_holder = {x["name"] for x in interp["variants"][0]["fields"] if "PrintState" in x["ty"]}
+    start_w = arm_fields("PrintSetPrinterType")
+    item_w = {}
+    for v in ("PrintComma", "PrintSemicolon", "PrintValueFromA"):
+        for fld in arm_fields(v):
+            item_w.setdefault(fld, set()).add(v)
+    for fld in sorted(item_w):
+        if fld in devices_ or fld in state_holder:
+            continue
+        ctx.decide(fld in start_w, rule, "%s:Interpreter.%s" % (rule, fld), one.loc, "written when a statement starts",
+                   "the interpreter's `%s` is written while the items of a PRINT are executed (%s) but not when a PRINT statement "
+                   "starts: what a statement that an error ended early left there comes out in the next PRINT - on whatever device "
+                   "that one prints to" % (fld, sorted(item_w[fld])))
     ctx.require(rule, 4)
 
 
